@@ -131,7 +131,8 @@ def build_model():
         def Tracks(self) -> Iterable[Trk]: ...
 
     class PlainEvent:
-        def Jets(self, bank: str = "d", calib: bool = True) -> Iterable[Jet]: ...
+        # (the same methods with OTHER declared defaults: one lambda object given to streams of both models is completed differently)
+        def Jets(self, bank: str = "plain", calib: bool = False, extra: int = 7) -> Iterable[Jet]: ...
         def met(self) -> float: ...
         def Tracks(self) -> Iterable[Trk]: ...
 
@@ -362,10 +363,22 @@ class History:
 
     # -- operations
     def derive(self, e, opname, text, rkind, mode):
-        if mode == "ast" and e.kind in ("uEvent", "other") and getattr(e.ds, "untyped", False) and self.rnd.random() < 0.5:
-            # untyped datasets: one ast.Lambda OBJECT is handed to several operators / streams (shared sub-ASTs in lambdas too)
-            arg = self.shared_asts.setdefault(text, astx.parse_expr(text))
-            mode = "ast-shared-object"
+        if mode == "ast" and self.rnd.random() < 0.5:
+            # one AST OBJECT - a bare ast.Lambda, or the Module / Expression ast.parse made of the text - is handed to several operators
+            # and streams, typed ones with differing declared defaults among them (shared sub-ASTs in lambdas too)
+            import ast as _ast
+
+            form = ("lambda", "module", "expression")[hash(text) % 3]
+            made = {"lambda": lambda: astx.parse_expr(text), "module": lambda: _ast.parse(text), "expression": lambda: _ast.parse(text, mode="eval")}[form]
+            arg = self.shared_asts.setdefault((text, form), made())
+            if form == "expression":
+                try:
+                    from func_adl.util_ast import lambda_unwrap
+
+                    lambda_unwrap(arg)
+                except Exception:
+                    arg, form = self.shared_asts.setdefault((text, "lambda"), astx.parse_expr(text)), "lambda"  # (an Expression wrapper is not a documented form)
+            mode = "ast-shared-object:" + form
         else:
             arg = text if mode == "string" else astx.parse_expr(text)
         self.mode_counts[mode] = self.mode_counts.get(mode, 0) + 1
